@@ -394,6 +394,10 @@ func specLkAfter(kind, lk int) int {
 // C06: Parse is total: no panic and every loop has a ranking function, for
 // every byte string (smaller than 4 GiB, see above).
 
+// A parsed File's maps are created by Parse and never replaced.
+//@ field-constraint File.Meta: new == old
+//@ field-constraint File.Count: new == old
+
 //@ contract Parse
 //@   requires $private
 //@   requires len(data) < 1<<32
